@@ -3,9 +3,11 @@ package main
 import (
 	"bufio"
 	"bytes"
+	"crypto/tls"
 	"encoding/json"
 	"flag"
 	"fmt"
+	mrand "math/rand"
 	"net"
 	"os"
 	"runtime"
@@ -156,6 +158,7 @@ func (c *lifeCtl) openAll() {
 
 type lifeClient struct {
 	id     int
+	hsDone chan struct{} // TLS clients: closed when the client-side handshake finished
 	conn   net.Conn
 	local  string
 	kind   string
@@ -170,12 +173,26 @@ type LifeScript struct {
 	TLS    json.RawMessage   `json:"tls"` // C09 scenarios carry their own section
 }
 
+// freePort picks a port for a server listener OUTSIDE the kernel's ephemeral range (32768-60999), so that the
+// source port of some client connection can never collide with it while the listener is closed (Restart), and
+// binds the wildcard address exactly as the server will.
+var portRng = mrand.New(mrand.NewSource(time.Now().UnixNano()))
+var portMu sync.Mutex
+
 func freePort() int {
-	// bind the wildcard address exactly as the server will, so that the port is free on every local address
-	l, err := net.Listen("tcp", ":0")
-	must(err)
-	defer l.Close()
-	return l.Addr().(*net.TCPAddr).Port
+	portMu.Lock()
+	defer portMu.Unlock()
+	for i := 0; i < 2000; i++ {
+		p := 20000 + portRng.Intn(12000)
+		l, err := net.Listen("tcp", fmt.Sprintf(":%d", p))
+		if err != nil {
+			continue
+		}
+		l.Close()
+		return p
+	}
+	must(fmt.Errorf("no free port"))
+	return 0
 }
 
 func pingOn(conn net.Conn, timeout time.Duration) bool {
@@ -244,6 +261,32 @@ type lifeRun struct {
 	inCall  string
 	phase   string
 	timeout time.Duration
+	nkinds  int
+}
+
+var thePKI *pki
+
+func lifePKI() *pki {
+	if thePKI == nil {
+		thePKI = newPKI()
+	}
+	return thePKI
+}
+
+func tlsProbe(port int) (dialed bool, served bool) {
+	d := net.Dialer{LocalAddr: &net.TCPAddr{IP: net.ParseIP(probeIP)}, Timeout: 500 * time.Millisecond}
+	raw, err := d.Dial("tcp", fmt.Sprintf("127.0.0.1:%d", port))
+	if err != nil {
+		return false, false
+	}
+	defer raw.Close()
+	tc := tls.Client(raw, &tls.Config{RootCAs: lifePKI().rootPool, ServerName: "localhost", Certificates: lifePKI().clients["ok"], MinVersion: tls.VersionTLS12})
+	raw.SetDeadline(time.Now().Add(1500 * time.Millisecond))
+	if tc.Handshake() != nil {
+		return true, false
+	}
+	raw.SetDeadline(time.Time{})
+	return true, pingOn(tc, 700*time.Millisecond)
 }
 
 func (lr *lifeRun) clientState(c *lifeClient) string {
@@ -289,10 +332,12 @@ func (lr *lifeRun) observe(where string, final bool) {
 	sort.Strings(kinds)
 	if lr.phase == "running" {
 		for _, k := range kinds {
+			d, s := false, false
 			if k == "tls" {
-				continue // TLS probes are done by the C09 driver with certificates
+				d, s = tlsProbe(lr.ports[k])
+			} else {
+				d, s = probe(lr.ports[k])
 			}
-			d, s := probe(lr.ports[k])
 			lr.rec.Emit(Ev{"ev": "obs", "kind": "probe", "port": k, "dialed": d, "served": s, "where": where, "phase": lr.phase})
 		}
 		// which scripted clients are being served, and what the registry says
@@ -387,7 +432,7 @@ func (lr *lifeRun) infeasible(step string) {
 func (rn *runner) runLife(id int, s LifeScript, setHook func(*lifeCtl)) {
 	rn.rec.Begin(id)
 	ctl := newLifeCtl(rn.rec)
-	for _, p := range []string{"start.opened", "stop.conns-closed", "accept-error", "recv.before-register"} {
+	for _, p := range []string{"start.opened", "stop.conns-closed", "accept-error", "recv.before-register", "tls.handshake.begin"} {
 		ctl.gated[p] = true
 	}
 	setHook(ctl)
@@ -402,6 +447,11 @@ func (rn *runner) runLife(id int, s LifeScript, setHook func(*lifeCtl)) {
 		lr.ports[k] = freePort()
 	}
 	es.Server.SetPort(lr.ports["plain"])
+	if p, ok := lr.ports["tls"]; ok {
+		es.Server.SetTLSPort(p)
+		es.Server.ServerCert, es.Server.ServerKey, es.Server.CACerts = lifePKI().serverPEM, lifePKI().keyPEM, lifePKI().rootPEM
+	}
+	lr.nkinds = len(kinds)
 	rn.rec.Emit(Ev{"ev": "scenario", "prog": s.Prog, "kinds": kinds})
 	abandoned := false
 	for _, raw := range s.Script {
@@ -447,7 +497,7 @@ func (rn *runner) runLife(id int, s LifeScript, setHook func(*lifeCtl)) {
 			case "start.opened", "stop.conns-closed":
 				key = parkKey{point, "ctl"}
 			case "accept-error":
-				key = parkKey{"accept-error", fmt.Sprintf("loop:%s:%d", str(2), genIndex(ctl, str(2), num(3)))}
+				key = parkKey{"accept-error", fmt.Sprintf("loop:%s:%d", str(2), (num(3)-1)/lr.nkinds+1)}
 			case "before-register":
 				c := lr.clients[num(2)]
 				if c == nil || !c.dialOK {
@@ -456,6 +506,27 @@ func (rn *runner) runLife(id int, s LifeScript, setHook func(*lifeCtl)) {
 					break
 				}
 				key = parkKey{"recv.before-register", "conn:" + c.local}
+				if c.kind == "tls" {
+					// first let the parked handshake run (the client side is already handshaking), then the registration gate
+					hk := parkKey{"tls.handshake.begin", "conn:" + c.local}
+					if !ctl.waitFor(func() bool { return ctl.parked[hk] }, 400*time.Millisecond) {
+						lr.infeasible("TLS client is not parked at its handshake")
+						abandoned = true
+						break
+					}
+					rn.rec.Emit(Ev{"ev": "release", "point": hk.point, "id": hk.id})
+					ctl.release(hk)
+					ctl.waitFor(func() bool { return !ctl.parked[hk] }, lr.timeout)
+					ctl.waitFor(func() bool { return ctl.parked[key] || ctl.closed[c.local] }, 1500*time.Millisecond)
+					if !ctl.parked[key] { // the server refused the connection before registration (closed it): nothing left to release
+						select {
+						case <-c.hsDone:
+						case <-time.After(500 * time.Millisecond):
+						}
+						lr.observe("after-register", false)
+						continue
+					}
+				}
 			}
 			if abandoned {
 				break
@@ -481,10 +552,16 @@ func (rn *runner) runLife(id int, s LifeScript, setHook func(*lifeCtl)) {
 			case "before-register":
 				c := lr.clients[num(2)]
 				ctl.waitFor(func() bool { return ctl.reg[c.local] || ctl.closed[c.local] }, 500*time.Millisecond)
+				ctl.mu.Lock()
+				isReg := ctl.reg[c.local] && !ctl.closed[c.local]
+				ctl.mu.Unlock()
+				if isReg {
+					rn.rec.Emit(Ev{"ev": "registered", "x": c.id})
+				}
 				lr.observe("after-register", false)
 			}
 		case "parked":
-			key := parkKey{"accept-error", fmt.Sprintf("loop:%s:%d", str(2), genIndex(ctl, str(2), num(3)))}
+			key := parkKey{"accept-error", fmt.Sprintf("loop:%s:%d", str(2), (num(3)-1)/lr.nkinds+1)}
 			if !ctl.waitFor(func() bool { return ctl.parked[key] }, 600*time.Millisecond) {
 				lr.infeasible(fmt.Sprintf("loop %v never reached accept-error", key))
 				abandoned = true
@@ -492,15 +569,24 @@ func (rn *runner) runLife(id int, s LifeScript, setHook func(*lifeCtl)) {
 		case "dial":
 			x, kind := num(1), str(2)
 			conn, err := net.DialTimeout("tcp", fmt.Sprintf("127.0.0.1:%d", lr.ports[kind]), 500*time.Millisecond)
-			c := &lifeClient{id: x, kind: kind}
+			c := &lifeClient{id: x, kind: kind, hsDone: make(chan struct{})}
 			if err == nil {
 				c.conn, c.dialOK, c.local = conn, true, conn.LocalAddr().String()
+				if kind == "tls" {
+					tc := tls.Client(conn, &tls.Config{RootCAs: lifePKI().rootPool, ServerName: "localhost", Certificates: lifePKI().clients["ok"], MinVersion: tls.VersionTLS12})
+					c.conn = tc
+					go func() { tc.Handshake(); close(c.hsDone) }() // the server side is parked before its handshake
+				}
 			}
 			lr.clients[x] = c
 			rn.rec.Emit(Ev{"ev": "dial", "x": x, "port": kind, "ok": c.dialOK, "phase": lr.phase})
 		case "accepted":
 			c := lr.clients[num(1)]
-			if c == nil || !c.dialOK || !ctl.waitFor(func() bool { return ctl.parked[parkKey{"recv.before-register", "conn:" + c.local}] }, 600*time.Millisecond) {
+			gate := "recv.before-register"
+			if c != nil && c.kind == "tls" {
+				gate = "tls.handshake.begin"
+			}
+			if c == nil || !c.dialOK || !ctl.waitFor(func() bool { return ctl.parked[parkKey{gate, "conn:" + c.local}] }, 600*time.Millisecond) {
 				lr.infeasible("client was not accepted")
 				abandoned = true
 			}
@@ -550,7 +636,7 @@ func (rn *runner) runLife(id int, s LifeScript, setHook func(*lifeCtl)) {
 // genIndex maps the model's listener generation number to the n-th loop of that kind observed
 // (model generations count all kinds; with one kind they coincide).
 func genIndex(ctl *lifeCtl, kind string, modelGen int) int {
-	return modelGen
+	return modelGen // (unused: see lifeRun.nkinds)
 }
 
 func cmdLife(args []string) {
